@@ -396,7 +396,10 @@ def render_enum(es, info):
     if not m:
         raise Broken('enum %s not found in %s' % (es.cxx_name, es.file))
     e = match_close(nc, mask, m.end() - 1, '{', '}')
-    items = [x.strip() for x in nc[m.end():e].split(',') if x.strip()]
+    # preprocessor lines inside the enumerator list (#if !defined(JSONCONS_NO_DEPRECATED) ... #endif): the directives are dropped and the enumerators they
+    # guard are kept, which is the default configuration (JSONCONS_NO_DEPRECATED is not defined by the library or its test-suite)
+    body = re.sub(r'(?m)^[ \t]*#.*$', '', nc[m.end():e])
+    items = [x.strip() for x in body.split(',') if x.strip()]
     out = []
     for it in items:
         mm = re.match(r'^(\w+)\s*(=\s*(.+))?$', it, re.S)
